@@ -66,7 +66,7 @@ def case_strategy(draw):
             if name in info.attrs() and src.chance(2, 3):
                 special[name] = src.pick(SPECIALS)
         pool.append({"hist": hist, "special": special, "cls": src.pick(["inst", "inst", "M"]), "strip_key": src.chance(1, 6)})
-    return {"world": wd, "pool": pool, "cyclic": src.pick(["self", "list", "dict", "two", "none"])}
+    return {"world": wd, "pool": pool, "cyclic": src.pick(["self", "list", "dict", "two", "none", "keyedset", "keyedlist", "nan"])}
 
 
 def build_instance(world, spec, others):
@@ -298,6 +298,29 @@ def run_case(ctx, case):
             ctx.fail("repr|attributes", case, f"repr lists {got}, expected the repr-enabled attributes in declaration order {want}: {text[:300]!r}")
             return
     ctx.count("reprs", len(reprs))
+    # self-referential instances (and values that are not equal to themselves): equality stays reflexive, copying terminates
+    # and reproduces the shape
+    for a in cyc or []:
+        try:
+            same = a == a
+        except Exception as e:
+            ctx.fail(f"eq|cyclic_raises:{type(e).__name__}", case, f"x == x raised {e!r} for a self-referential x (cyclic={case['cyclic']})")
+            return
+        if same is not True:
+            ctx.fail("eq|not_reflexive", case, f"x == x is {same!r} (cyclic={case['cyclic']})")
+            return
+        try:
+            c = copy.deepcopy(a)
+        except Exception as e:
+            ctx.fail(f"deepcopy|cyclic_raises:{type(e).__name__}", case, f"deepcopy(x) raised {e!r} for a self-referential x (cyclic={case['cyclic']})")
+            return
+        if case["cyclic"] == "self" and not (c is not a and stored(c, "cb") is c):
+            ctx.fail("deepcopy|cycle_not_reproduced", case, f"deepcopy of x with x.cb = x: copy.cb is {'x itself' if stored(c, 'cb') is a else 'a third object'}")
+            return
+        if case["cyclic"] == "list" and not (isinstance(stored(c, "cb"), list) and stored(c, "cb")[0] is c):
+            ctx.fail("deepcopy|cycle_not_reproduced", case, "deepcopy of x with x.cb = [x, 1]: the copy's list does not hold the copy")
+            return
+        ctx.count("cyclic_copies")
     ctx.case(case, nontrivial)
 
 
@@ -338,6 +361,14 @@ def _make_cyclic(world, mode, pool):
             return [a]
         if mode == "dict":
             a.cb = {"me": a}
+            return [a]
+        if mode in ("keyedset", "keyedlist"):
+            from spec_classes.types import KeyedList, KeyedSet
+
+            a.cb = (KeyedSet if mode == "keyedset" else KeyedList)([a], key=id)
+            return [a]
+        if mode == "nan":
+            a.cb = float("nan")  # not a cycle: a value that is not equal to itself
             return [a]
         if "cb" in world.attrs(type(b).__name__):
             a.cb = b
